@@ -32,16 +32,18 @@ type Summary struct {
 
 // Engine holds memoised linearisations, summaries and cursor invariants.
 type Engine struct {
-	P            *kit.Prog
-	lin          map[ssa.Value]Lin
-	linBusy      map[ssa.Value]bool
-	sums         map[*ssa.Function]*Summary
-	sumBusy      map[*ssa.Function]bool
-	cursors      map[*ssa.Function]map[*ssa.Phi]ssa.Value
-	curBusy      map[*ssa.Function]bool
-	keyType      map[string]types.Type
-	keyName      map[string]string
-	NonNeg       map[*ssa.Parameter]bool // parameters assumed >= 0 (obligation at call sites)
+	P       *kit.Prog
+	lin     map[ssa.Value]Lin
+	linBusy map[ssa.Value]bool
+	sums    map[*ssa.Function]*Summary
+	sumBusy map[*ssa.Function]bool
+	cursors map[*ssa.Function]map[*ssa.Phi]ssa.Value
+	curBusy map[*ssa.Function]bool
+	keyType map[string]types.Type
+	keyName map[string]string
+	NonNeg  map[*ssa.Parameter]bool // parameters assumed >= 0 (obligation at call sites)
+	// CopyAsLenSrc treats copy(dst, src) as returning len(src) (size-agreement rules).
+	CopyAsLenSrc bool
 	storesTo     map[*ssa.Function]map[*types.Var][]*ssa.Store
 	gfacts       map[*ssa.Function][]gfact
 	loadKeys     map[*ssa.UnOp]any
@@ -519,6 +521,9 @@ func (e *Engine) lin0(v ssa.Value) Lin {
 	case *ssa.Call:
 		if b, ok := x.Call.Value.(*ssa.Builtin); ok && b.Name() == "len" {
 			return e.LenOf(x.Call.Args[0])
+		}
+		if b, ok := x.Call.Value.(*ssa.Builtin); ok && b.Name() == "copy" && e.CopyAsLenSrc {
+			return e.LenOf(x.Call.Args[1])
 		}
 		return e.opaque(v)
 	case *ssa.UnOp:
